@@ -159,3 +159,11 @@ impl RetryStrategy {
 //@fn @ffi/ffi.rs | RetryStrategy::max_delay | tags=C18
 //@|    ensures r == spec_millis(self.max_delay),
 }
+// a database transaction (C function pointer + context): `ran()` = the C callback has been invoked (it gets the database it is handed)
+pub struct DatabaseCallback { pub x: u8 }
+impl DatabaseCallback {
+    pub uninterp spec fn ran(&self) -> bool;
+    #[verifier::external_body]
+    pub fn callback(&self, database: &mut crate::Database) ensures self.ran() { unimplemented!() }
+}
+//@trusted ffi::DatabaseCallback::callback: C callback, opaque (takes the database by `&mut` in the unit: the raw pointer the real signature takes is made from exactly such a reference at the call site)
